@@ -6,7 +6,7 @@
    set -- cannot leak the enumeration order). *)
 From Coq Require Import ZArith List Permutation Bool.
 Import ListNotations.
-Require Import SC3.model.Graph SC3.model.BuildCtx.
+Require Import SC3.model.Graph SC3.model.BuildCtx SC3.gen.Gen_opcodes.
 Require Import SC3.proofs.C20_arrange SC3.proofs.C20_ctx.
 
 (* UGen._arrange: `descendants = list(self._descendants); descendants.sort(key=_synth_index);
@@ -17,30 +17,40 @@ Theorem arrange_independent_of_set_order : forall (index : nat -> Z) (ds ds' : l
   arrange_targets index ds = arrange_targets index ds' /\ Permutation (arrange_targets index ds) ds.
 Proof. intros; split; [apply arrange_indep; assumption | apply arrange_perm]. Qed.
 
-(* After any sequence of successful builds, builds that raise an Exception (graph function,
-   input checks) and unit generators created outside builds: the context is None, the lock is
-   free, no build was ever blocked and every outside unit generator belongs to no definition. *)
+(* the reader of definitions (SynthDesc._read_synthdef2) resets the context in a `finally:` clause in the
+   working tree (regenerated) *)
+Lemma read_finally : desc_read_finally = true.
+Proof. reflexivity. Qed.
+
+(* After any sequence of successful builds, builds that raise an Exception (graph function, input
+   checks), description reads (SynthDesc.new_from / read / SynthDef.add) that succeed or raise ANYTHING,
+   and unit generators created outside builds: the context is None, the lock is free, no build or read was
+   ever blocked and every outside unit generator belongs to no definition. *)
 Theorem ctx_released_on_every_path : forall evs : list event,
   forallb no_base evs = true ->
-  cur (fst (run ctx0 evs)) = None /\ locked (fst (run ctx0 evs)) = false /\
-  Forall (fun o => match o with OOutside _ b => b = None | OBlocked _ => False | OBuilt _ _ => True end)
-         (snd (run ctx0 evs)).
-Proof. intros evs H. apply run_released; auto. Qed.
-
-(* No residue: whatever happened before and after (failed builds included), a definition
-   contains exactly the units its own graph function created -- i.e. what the same build
-   yields from the initial state. *)
-Theorem failed_build_no_residue : forall (evs : list event) id toks o,
-  forallb no_base evs = true -> NoDup (build_ids evs) -> In (EBuild id toks o) evs ->
-  content id (defs (fst (run ctx0 evs))) = toks
-  /\ content id (defs (fst (run ctx0 [EBuild id toks o]))) = toks.
+  cur (fst (run desc_read_finally ctx0 evs)) = None /\ locked (fst (run desc_read_finally ctx0 evs)) = false /\
+  Forall (fun o => match o with OOutside _ b => b = None | OBlocked _ => False | _ => True end)
+         (snd (run desc_read_finally ctx0 evs)).
 Proof.
-  intros evs id toks o Hb Hnd Hin. split.
-  - apply (run_no_residue evs ctx0 eq_refl eq_refl Hb Hnd id toks o Hin).
-  - apply (run_no_residue [EBuild id toks o] ctx0 eq_refl eq_refl) with (o := o).
+  intros evs H. rewrite read_finally. destruct (run_released evs ctx0 eq_refl eq_refl H) as (A & B & C).
+  split; [exact A|]. split; [exact B|]. eapply Forall_impl; [|exact C]. intros o Ho. destruct o; simpl in *; auto.
+Qed.
+
+(* No residue: whatever happened before and after (failed builds and failed reads included), a definition
+   (or the dummy definition of a read) contains exactly the units its own graph function created -- i.e.
+   what the same build yields from the initial state. *)
+Theorem failed_build_no_residue : forall (evs : list event) e id toks,
+  forallb no_base evs = true -> NoDup (build_ids evs) -> In e evs -> ev_toks e = Some (id, toks) ->
+  content id (defs (fst (run desc_read_finally ctx0 evs))) = toks
+  /\ content id (defs (fst (run desc_read_finally ctx0 [e]))) = toks.
+Proof.
+  intros evs e id toks Hb Hnd Hin Het. rewrite read_finally. split.
+  - apply (run_no_residue evs ctx0 eq_refl eq_refl Hb Hnd e id toks Hin Het).
+  - apply (run_no_residue [e] ctx0 eq_refl eq_refl) with (e := e).
     + rewrite forallb_forall in Hb. cbn [forallb]. rewrite (Hb _ Hin). reflexivity.
-    + simpl. constructor; [intros []|constructor].
+    + rewrite (ev_toks_ids e id toks Het). constructor; [intros []|constructor].
     + left; reflexivity.
+    + exact Het.
 Qed.
 
 (* non-vacuity / the model computes *)
@@ -48,18 +58,26 @@ Example arrange_example : arrange_targets (fun u => Z.of_nat u) [5; 2; 9] = [9; 
                           /\ arrange_targets (fun u => Z.of_nat u) [9; 5; 2] = [9; 5; 2].
 Proof. vm_compute. split; reflexivity. Qed.
 Example ctx_example :
-  run ctx0 [EBuild 1 [10; 11] RaisesException; EOutside 12; EBuild 2 [13] Succeeds; EOutside 14]
-  = (mkCtx None false [(1, [10; 11]); (2, [13])],
-     [OBuilt 1 RaisesException; OOutside 12 None; OBuilt 2 Succeeds; OOutside 14 None]).
+  run true ctx0 [EBuild 1 [10; 11] RaisesException; EOutside 12; ERead 3 [15] RaisesBase; EOutside 16;
+                 EBuild 2 [13] Succeeds; EOutside 14]
+  = (mkCtx None false [(1, [10; 11]); (3, [15]); (2, [13])],
+     [OBuilt 1 RaisesException; OOutside 12 None; OReadDesc 3 RaisesBase; OOutside 16 None;
+      OBuilt 2 Succeeds; OOutside 14 None]).
 Proof. vm_compute. reflexivity. Qed.
 (* The hypothesis `no_base` is needed by the code as it is: a BaseException that is not an
    Exception (KeyboardInterrupt in an interactive session) is not caught by `except Exception`,
    so the context stays set and later outside units are appended to the dead definition. *)
 Example base_exception_leaves_residue :
-  run ctx0 [EBuild 1 [10] RaisesBase; EOutside 12]
+  run true ctx0 [EBuild 1 [10] RaisesBase; EOutside 12]
   = (mkCtx (Some 1) false [(1, [10; 12])], [OBuilt 1 RaisesBase; OOutside 12 (Some 1)]).
 Proof. vm_compute. reflexivity. Qed.
 
 Print Assumptions arrange_independent_of_set_order.
 Print Assumptions ctx_released_on_every_path.
 Print Assumptions failed_build_no_residue.
+
+(* a reader that resets the context only at the end of the try body (not in `finally:`) leaks it *)
+Example read_without_finally_leaves_residue :
+  run false ctx0 [ERead 1 [10] RaisesBase; EOutside 12]
+  = (mkCtx (Some 1) false [(1, [10; 12])], [OReadDesc 1 RaisesBase; OOutside 12 (Some 1)]).
+Proof. vm_compute. reflexivity. Qed.
